@@ -4,7 +4,7 @@
    Run with the output directory as cwd (Coq 8.16 has no output-dir option). *)
 From Coq Require Import Extraction ExtrOcamlBasic.
 From LF Require Import Base.Opcode Base.Num Base.Arena Tree.Build Tree.Flatten
-  Tree.Optimize Eval.Deck Eval.Push Serial.Codec.
+  Tree.Optimize Eval.Deck Eval.Push Serial.Codec Conc.Refcount.
 
 Extraction Language OCaml.
 Extraction "model.ml"
@@ -13,4 +13,5 @@ Extraction "model.ml"
   flags_of flatten optimized optimized_helper tree_eq
   walk mk_deck init_slots set_point eval_tape tape_value
   tape_push keep_point keep_interval
-  serialize deserialize.
+  serialize deserialize
+  rc_spec live_count rstep drop alloc.
